@@ -294,13 +294,16 @@ class Folder:
                 d[self.ev(k, env)] = self.ev(v, env)
         return d
 
+    def iterate(self, v):
+        return v
+
     def _comp(self, gens, env, emit):
         def rec(i, env):
             if i == len(gens):
                 emit(env)
                 return
             g = gens[i]
-            for item in self.ev(g.iter, env):
+            for item in self.iterate(self.ev(g.iter, env)):
                 env2 = dict(env)
                 self.bind(g.target, item, env2)
                 if all(self.ev(c, env2) for c in g.ifs):
